@@ -259,6 +259,9 @@ func (reg *Reg) referrerDelete(ctx context.Context, r ref.Ref, m manifest.Manife
 		return nil
 	}
 
+	// lock to avoid internal race conditions between pulling and pushing tag
+	reg.muRefTag.Lock()
+	defer reg.muRefTag.Unlock()
 	// fallback to using tag schema for refers
 	rl, err := reg.referrerListByTag(ctx, rSubject)
 	if err != nil {
@@ -267,6 +270,16 @@ func (reg *Reg) referrerDelete(ctx context.Context, r ref.Ref, m manifest.Manife
 	err = rl.Delete(m)
 	if err != nil {
 		return err
+	}
+	// ensure the referrer list does not have a subject itself (avoiding circular locks)
+	if ms, ok := rl.Manifest.(manifest.Subjecter); ok {
+		mDesc, err := ms.GetSubject()
+		if err != nil {
+			return err
+		}
+		if mDesc != nil && mDesc.Digest != "" {
+			return fmt.Errorf("fallback referrers manifest should not have a subject: %s", rSubject.CommonName())
+		}
 	}
 	// push updated referrer list by tag
 	rlTag, err := referrer.FallbackTag(rSubject)
